@@ -165,7 +165,7 @@ def _fuzz(tier):
     from harness import fuzz_pipelines
     seed = int(os.environ.get('VERIF_SEED', '0') or 0)
     c, f = fuzz_pipelines.search(tier, seed)
-    return c, f, ('%d random pipelines of depth 1..4 (seed %d) over sources of 0..5 examples from 24 operations (map, slices, masks, '
+    return c, f, ('%d random pipelines of depth 1..4 (seed %d) over sources of 0..5 examples from 25 operations (map, parallel map, slices, masks, '
                   'key lists, concatenate, tile, zip, key_zip, items, batch, unbatch, lazy/eager filter, sort, cache, copy, prefetch, '
                   'split/shard, intersperse, snapshots, cached-state queries); complete observation vs the eager reference'
                   % (250 if tier == 'quick' else 2500, seed))
@@ -181,15 +181,50 @@ def _fuzz_isolation(tier):
                   'construction, mutate at the first hand-out' % (400 if tier == 'quick' else 4000, seed))
 
 
+def _fuzz_determinism(tier):
+    import os
+    from harness import fuzz_pipelines
+    seed = int(os.environ.get('VERIF_SEED', '0') or 0)
+    c, f = fuzz_pipelines.search_determinism(tier, seed)
+    return c, f, ('%d random recipes (seed %d) of 1..5 stages mixing seeded one-time shuffles, per-epoch reshuffles, buffer-local shuffles and '
+                  'lazily applied (re)shuffles with map / slice / concatenate / tile / zip / batch / unbatch / filter / items / intersperse / '
+                  'copy; 3 epochs with the global numpy state reseeded before every epoch: second build, copy() of a fresh build (not when one '
+                  'reshuffling object is used twice: F25), behind prefetch(1,2) and prefetch(2,3), copy(freeze=True) while the original keeps '
+                  'iterating (reshuffle / lazy apply only), ordered flag' % (150 if tier == 'quick' else 1500, seed))
+
+
+def _fuzz_demand(tier):
+    import os
+    from harness import fuzz_pipelines
+    seed = int(os.environ.get('VERIF_SEED', '0') or 0)
+    c, f = fuzz_pipelines.search_demand(tier, seed)
+    return c, f, ('%d random recipes (seed %d) of 1..5 lazy stages (map, lazy filter, batch, unbatch, slices, index lists, concatenate, tile, zip, '
+                  'catch, items, batch_map; at most one of prefetch(1,b) / prefetch(2,b) / map(num_workers) / batch_map(num_workers)) over sources '
+                  'of 0..13 examples with an instrumented function at every stage, next to a reference of Python generators: construction applies '
+                  'nothing; for EVERY prefix length the application log equals the reference log (interleaving included); with a buffering stage: '
+                  'per stage a source-ordered once-only prefix within (b+1) [(b+2) for worker pools] results ahead; ds[i] applies what the '
+                  'reference point evaluation applies' % (150 if tier == 'quick' else 1500, seed))
+
+
+def _fuzz_prefetch_determinism(tier):
+    import os
+    from harness import fuzz_pipelines
+    seed = int(os.environ.get('VERIF_SEED', '0') or 0)
+    c, f = fuzz_pipelines.search_determinism(tier, seed, only='prefetch')
+    return c, f, ('%d random recipes (seed %d) of 1..5 stages mixing seeded shuffles / reshuffles / local shuffles / lazily applied shuffles with '
+                  'deterministic stages; 3 epochs: the recipe behind prefetch(1,2) and prefetch(2,3) delivers the epochs of the plain recipe'
+                  % (150 if tier == 'quick' else 1500, seed))
+
+
 EXTRA_FUZZ = [('bounded-pipeline-fuzz', _fuzz)]
 
 EXTRA_MORE = {
     'C02': [('bounded-offered-lengths', _mk('offered_lengths', 'sources of 0,1,2,5,8 examples; lazy apply (slice / eager filter / tile / shuffle), filter, catch, unbatch, reshuffle, local shuffle, prefetch, dynamic buckets, each also under map / batch / local shuffle: len() is refused or equals the iteration count')),
             ('bounded-numpy-indices', _mk('numpy_indices', '18 pipelines over 300 examples, 28 boundary indices, np.int8/uint8/int16 (quick) plus uint16/int32/int64 (thorough): ds[dtype(i)] equals ds[int(i)]'))],
-    'C04': [('bounded-parallel-equals-sequential', _mk('parallel_equals_sequential', 'thread backend; n in {0,1,2,5,9} (.. 12), workers 1..2 (3), buffers 1,2,4 (1..7); map(num_workers), prefetch, seeded reshuffle / shared-reshuffle tile below prefetch, stacked; values and items; 3 epochs; lengths'))],
+    'C04': [('bounded-prefetch-fuzz', _fuzz_prefetch_determinism), ('bounded-parallel-equals-sequential', _mk('parallel_equals_sequential', 'thread backend; n in {0,1,2,5,9} (.. 12), workers 1..2 (3), buffers 1,2,4 (1..7); map(num_workers), prefetch, seeded reshuffle / shared-reshuffle tile below prefetch, stacked; values and items; 3 epochs; lengths'))],
     'C11': [('bounded-diskcache-kill-points', _mk('diskcache_kill_points', 'a forked child populating 12 examples is killed (SIGKILL) after 0, 20, 50, 90 ms (0..150 ms in 10 ms steps); reopen with reuse=True: all values correct, stored ones not recomputed')),
             ('bounded-diskcache-lifecycles', _mk('diskcache_lifecycles', 'cache_dir given / None x clear x {copy outlives original, original outlives copy, no copy} x {0, 2, all of 4 examples read}; release by garbage collection; reopen with reuse=False (refused) and reuse=True (no recomputation)'))],
-    'C13': [('bounded-prefetch-determinism', _mk('parallel_equals_sequential', 'as for C04: seeded per-epoch reshuffles below prefetch / parallel map reproduce the sequential epochs'))],
+    'C13': [('bounded-determinism-fuzz', _fuzz_determinism), ('bounded-prefetch-determinism', _mk('parallel_equals_sequential', 'as for C04: seeded per-epoch reshuffles below prefetch / parallel map reproduce the sequential epochs'))],
     'C09': [('bounded-isolation-fuzz', _fuzz_isolation), ('bounded-snapshot-isolation', _mk('snapshot_isolation', 'from_dataset / new(src) / cache(lazy=False) of dict- and list-backed sources stored in pickle, copy, wu mode: isolated from later mutation of the original objects and of handed-out examples')),
             ('bounded-isolation-more', _mk('isolation_more', 'example shapes dict / tuple / namedtuple / list with mutable parts; pickle, copy, wu, memory and disk cache; mutation inside a running first-epoch loop, over items(), through a copy, after an aborted epoch, after the next example was requested; re-read by iteration, index, copy')),
             ('bounded-isolation', _mk('isolation', 'new/from_list in pickle, copy, wu mode and memory/disk cache; 7 access paths, miss and hit, nested in-place mutations'))],
@@ -218,7 +253,7 @@ def _shuffle_for(c13):
     return run
 
 
-EXTRA = {'C16': [('bounded-laws', _laws)], 'C08': [('bounded-demand', _effects)], 'C17': [('bounded-bucket-iter', _bucket)],
+EXTRA = {'C16': [('bounded-laws', _laws)], 'C08': [('bounded-demand', _effects), ('bounded-demand-fuzz', _fuzz_demand)], 'C17': [('bounded-bucket-iter', _bucket)],
          'C12': [('bounded-shuffles', _shuffle_for(False))], 'C13': [('bounded-seed-determinism', _shuffle_for(True))]}
 
 
@@ -263,7 +298,7 @@ def main():
                         'failures': (unexplained or fl)[:5],
                         'known_finding_cases': len(fl) - len(unexplained)})
         os.environ['VERIF_SEED'] = str(a.seed)
-        for name, fn in EXTRA.get(a.prop, []) + EXTRA_MORE.get(a.prop, []) + (EXTRA_INIT if a.prop in ('C01', 'C02') else []) + (EXTRA_KEYS if a.prop in ('C03', 'C01') else []) + (EXTRA_FUZZ if a.prop in ('C01', 'C02', 'C03', 'C16') else []):
+        for name, fn in EXTRA.get(a.prop, []) + EXTRA_MORE.get(a.prop, []) + (EXTRA_INIT if a.prop in ('C01', 'C02') else []) + (EXTRA_KEYS if a.prop in ('C03', 'C01') else []) + (EXTRA_FUZZ if a.prop in ('C01', 'C02', 'C03', 'C04', 'C16') else []):
             cases, fails, bound = fn(a.tier)
             out.append({'name': name, 'kind': 'bounded', 'cases': cases, 'bound': bound, 'failures': fails[:5],
                         'known_finding_cases': 0})
